@@ -275,6 +275,31 @@ def klass(b, ld, e):
     return out
 
 
+def rule_p5(F):
+    """A first line that starts with `#!` is ignored - whatever follows the two characters (`#! /usr/bin/env roto` included)."""
+    r = RuleResult("C09.P5", "shebang: the first line is skipped exactly when it starts with `#!`", floor=1)
+    ps = [p for p in F.paths() if p.endswith("::skip_shebang") and "parser::lexer" in p]
+    if not ps:
+        r.missing("parser::lexer skip_shebang")
+        return r
+    b = F.body(ps[0])
+    ifs = [n for n in hir.nodes(b.hir["value"], "if")]
+    ok = False
+    detail = None
+    for iff in ifs:
+        c = hir.strip(iff["cond"])
+        calls = [(x["m"], [hir.strip(a).get("v") for a in x["args"]]) for x in hir.nodes(c, "mcall")]
+        detail = calls
+        eats = [x for x in calls if x[0] in ("eat_str", "starts_with", "strip_prefix") and x[1] == ["#!"]]
+        # the prefix test alone: no second conjunct
+        ok = bool(eats) and c.get("k") == "mcall" and len(calls) == 1
+    r.inst("skip_shebang condition", {"calls_in_condition": detail, "prefix_test_alone": ok})
+    if not ok:
+        r.bad(b.path, "shebang condition", relfile(b.file), b.line,
+              "the first line is skipped only under an extra condition besides the `#!` prefix (%s): a documented shebang such as `#! /usr/bin/env roto` is a parse error" % detail)
+    return r
+
+
 def names(e):
     """Names of the locals an expression mentions directly (not followed)."""
     return {n["res"]["name"] for n in hir.walk(e) if n.get("k") == "path" and hir.res_local(n) is not None}
@@ -493,4 +518,4 @@ def rule_p1(F):
 
 def rules(ctx):
     F = ctx["F"]
-    return [rule_p1(F), rule_p2(F), rule_p3(F), rule_p4(F)]
+    return [rule_p1(F), rule_p2(F), rule_p3(F), rule_p4(F), rule_p5(F)]
